@@ -192,6 +192,25 @@ func Load(repo, goarch string) (*Ctx, error) {
 			pkgs, by, mod, overlay = pkgs2, by2, mod2, next
 			c.ExpandNotes = append(c.ExpandNotes, notes...)
 		}
+		// renamed local variables of reference functions are read under their reference names (locals.go)
+		if ov, notes := undoLocalRenames(mod, pkgs[0].Fset, readSrc); len(ov) > 0 {
+			next := map[string][]byte{}
+			for k, v := range overlay {
+				next[k] = v
+			}
+			for k, v := range ov {
+				next[k] = v
+			}
+			cfg2 := &packages.Config{Mode: packages.LoadAllSyntax, Dir: repo, Env: env, Tests: false, Overlay: next}
+			if pkgs2, err2 := packages.Load(cfg2, "./..."); err2 == nil && len(pkgs2) > 0 {
+				if by2, mod2, errs2 := collect(pkgs2); len(errs2) == 0 && len(mod2) > 0 {
+					pkgs, by, mod, overlay = pkgs2, by2, mod2, next
+					c.ExpandNotes = append(c.ExpandNotes, notes...)
+				} else if len(errs2) > 0 {
+					c.ExpandNotes = append(c.ExpandNotes, "normalisation of renamed locals abandoned (does not type-check: "+errs2[0]+")")
+				}
+			}
+		}
 		// helpers that the rules recognise by their construct (a one-byte bool writer, a string writer, a dispatch
 		// forwarder, the skip wrapper, a pool release) are kept as functions: the rules read them as such
 		skip := map[string]bool{}
@@ -821,6 +840,18 @@ func (c *Ctx) tableOf(pkg, name string) (map[int64]constant.Value, token.Pos, bo
 					}
 					return out, n.Pos(), true
 				}
+			}
+		}
+	}
+	// a function of the same name that maps a kind to a constant takes the table's place: evaluated for every code
+	if sp := c.SSA[pkg]; sp != nil {
+		if fn := sp.Func(name); fn != nil {
+			if tab, ok := constIntFuncTable(fn); ok {
+				out := map[int64]constant.Value{}
+				for k, v := range tab {
+					out[k] = constant.MakeInt64(v)
+				}
+				return out, fn.Pos(), true
 			}
 		}
 	}
